@@ -167,10 +167,11 @@ enum Kind
   T_SHARED_UNREG,
   T_DYLIB,
   T_STORED_CB,
+  T_RESET,
   K_COUNT
 };
 static const char* kKind[] = { "create", "destroy", "ptr_roundtrip", "register", "unregister", "invoke_cb", "invoke_id", "malloc_free", "yield",
-                               "shared_register", "shared_unregister", "dylib_instance", "stored_callback_fired_later" };
+                               "shared_register", "shared_unregister", "dylib_instance", "stored_callback_fired_later", "reset" };
 
 // per-thread record of what callbacks saw
 struct CbSeen
@@ -500,6 +501,15 @@ static void thread_body(int tid, const std::vector<Op>& ops, ThreadResult& R)
         }
         break;
       }
+      case T_RESET: {
+        if (!s.created)
+          break;
+        Outcome o = attempt([&] { s.sb->reset_sandbox(); });
+        c.probe("sandbox_reset");
+        if (o != OK)
+          viol("reset_fails@reset", g_last_abort_msg.c_str());
+        break;
+      }
       case T_STORED_CB: {
         if (!s.created || !s.own)
           break;
@@ -603,6 +613,12 @@ static void thread_body(int tid, const std::vector<Op>& ops, ThreadResult& R)
       attempt([&] { s.sb->destroy_sandbox(); });
     s.created = false;
   }
+  // quiescent for this thread: none of its (destroyed) sandbox objects may still be listed in the registry
+  if constexpr (std::is_same_v<Sbx, SimSbx>) {
+    for (auto& s : S)
+      if (s.sb && SimSbx::destroyed_object_still_listed(s.sb->get_sandbox_impl()))
+        viol("destroyed_sandbox_still_in_registry@teardown", "an object of this thread is still listed after its destroy_sandbox");
+  }
   for (auto& s : S)
     s.sb.reset();
   if (dsb_created)
@@ -632,11 +648,11 @@ struct ThreadsWorld : World
     int shared = r.chance(1, 3) ? (r.chance(1, 3) ? 2 : 1) : 0; // 1: shared sim sandbox, 2: shared noop sandbox (registration only)
     p.cfg = { nthreads, bias, mix, (int64_t)(r.next() >> 2), (int64_t)r.below(2), shared };
     int n = (int)r.range(6, thorough ? 60 : 36);
-    std::vector<unsigned> w = { 10, 6, 12, 6, 3, 10, 5, 4, 2, (unsigned)(shared ? 16 : 0), (unsigned)(shared ? 10 : 0), (unsigned)(r.chance(1, 2) ? 8 : 0), 5 };
+    std::vector<unsigned> w = { 10, 6, 12, 6, 3, 10, 5, 4, 2, (unsigned)(shared ? 16 : 0), (unsigned)(shared ? 10 : 0), (unsigned)(r.chance(1, 2) ? 8 : 0), 5, 3 };
     if (shared && r.chance(1, 2)) {
       // swarm mode "registration focus": (almost) nothing but registrations and releases on the shared sandbox, so that
       // several threads are inside register_callback / unregister_callback of the same function at the same time
-      w = { 0, 0, 1, 0, 0, 1, 0, 0, 2, 20, 16, 0, 0 };
+      w = { 0, 0, 1, 0, 0, 1, 0, 0, 2, 20, 16, 0, 0, 0 };
       n = (int)r.range(20, thorough ? 90 : 60);
     }
     // every thread starts by creating a sandbox
